@@ -175,6 +175,30 @@ func C11(c *Ctx) {
 		Entrypoints: true,
 	}
 	c.ModelCheck(cfg)
+	// the same contract through the left-recursion runtime (errors of discarded growth attempts
+	// are dropped, everything else accumulates as usual); trace not compared there
+	lr := []*gast.Grammar{c08Strata()[0]} // an erroring operand evaluated in a discarded growth attempt and again afterwards
+	lrng := rand.New(rand.NewSource(c.Seed*97 + 11))
+	for i := 0; i < c.N(40, 500); i++ {
+		lr = append(lr, genLR(lrng, i%2 == 1))
+	}
+	c.ModelCheck(&MCConfig{
+		Profile: p, Grammars: lr, NGrammars: 0, LR: true,
+		FlagSets:  [][]string{{"-support-left-recursion"}, {"-support-left-recursion", "-optimize-parser"}},
+		InputsPer: 0, ExhaustLimit: c.N(60, 300), ExhaustLen: 5,
+		ExtraInputs: func(g *gast.Grammar, r *rand.Rand) [][]byte {
+			var out [][]byte
+			for _, in := range lrInputs(g, r, c.N(50, 150)) {
+				if len(in) <= 40 {
+					out = append(out, in)
+				}
+			}
+			return out
+		},
+		OptSets:    []OptSet{{Name: "default"}, {Name: "file", File: "in.txt"}},
+		Compare:    CmpErrs | CmpErrTypes | CmpVal | CmpPanic | CmpOK,
+		NonTrivial: cfg.NonTrivial,
+	})
 }
 
 func c11Strata() []*gast.Grammar {
